@@ -259,11 +259,14 @@ func (p *BaseProcess) receiveOnInPorts() (ips map[string]*FileIP, inPortsOpen bo
 	// Read input IPs on in-ports and set up path mappings
 	for inpName, inPort := range p.InPorts() {
 		Debug.Printf("[Process %s]: Receieving on inPort (%s) ...", p.name, inpName)
+		verifPoint("port.recv_begin", verifPortName(inPort.process, inPort.name))
 		ip, open := <-inPort.Chan
 		if !open {
+			verifPoint("port.recv_closed", verifPortName(inPort.process, inPort.name))
 			inPortsOpen = false
 			continue
 		}
+		verifPoint("port.recv", verifPortName(inPort.process, inPort.name), ip.Path())
 		Debug.Printf("[Process %s]: Got ip (%s) ...", p.name, ip.Path())
 		ips[inpName] = ip
 	}
@@ -275,11 +278,14 @@ func (p *BaseProcess) receiveOnInParamPorts() (params map[string]string, paramPo
 	params = make(map[string]string)
 	// Read input IPs on in-ports and set up path mappings
 	for pname, pport := range p.InParamPorts() {
+		verifPoint("pport.recv_begin", verifPortName(pport.process, pport.name))
 		pval, open := <-pport.Chan
 		if !open {
+			verifPoint("pport.recv_closed", verifPortName(pport.process, pport.name))
 			paramPortsOpen = false
 			continue
 		}
+		verifPoint("pport.recv", verifPortName(pport.process, pport.name), pval)
 		Debug.Printf("[Process %s]: Got param %s ...", p.name, pval)
 		params[pname] = pval
 	}
